@@ -50,6 +50,19 @@ def _remap(x, off, boff):
     return out
 
 
+def _fn_refs(x):
+    """function paths mentioned as values (fn pointers / fn items passed around) inside an operand or rvalue"""
+    if isinstance(x, list):
+        for y in x:
+            yield from _fn_refs(y)
+    elif isinstance(x, dict):
+        if x.get('k') == 'const' and x.get('fn'):
+            yield x['fn']
+        for v in x.values():
+            if isinstance(v, (dict, list)):
+                yield from _fn_refs(v)
+
+
 def _inline_call(caller, bi, callee):
     blk = caller['blocks'][bi]
     t = blk['term']
@@ -161,10 +174,14 @@ def normalise(j):
                     if t.get(key) in newp and f['path'] != t.get(key):
                         still.add(t[key])
             for s in b['stmts']:
-                txt = json.dumps(s.get('rv') or {})
-                for p in newp:
-                    if p in txt and 'inlined' not in s.get('text', ''):
-                        still.add(p)
+                for ref in _fn_refs(s.get('rv') or {}):
+                    if ref in newp:
+                        still.add(ref)
+            if t['k'] == 'call':
+                for a in t.get('args', []):
+                    for ref in _fn_refs(a):
+                        if ref in newp:
+                            still.add(ref)
     drop = {p for p in inlinable if p in count and p not in still}
     for p in sorted(count):
         notes.append('new helper %s inlined at %d call site(s)%s' % (p, count[p], '' if p in drop else ' (still referenced elsewhere: kept as a function too)'))
